@@ -199,7 +199,7 @@ pub fn gen_inc(r: &mut Sm, inst: &Instance, id: &VId) -> u16 {
         }
     }
     if r.chance(2) {
-        *r.pick(&[130u16, 250, 251, 252, 16383, 16384, 300])
+        *r.pick(&[130u16, 250, 251, 252, 16383, 16384, 300, 32767, 32768, 40000])
     } else {
         *r.pick(&INCS)
     }
